@@ -688,7 +688,15 @@ func runPoolReleaseLast(c *Ctx, rule string) {
 					c.Sites++
 					obj := call.Call.Args[0]
 					var used []string
-					for _, later := range instrsReachableAfter(b, idx) {
+					// a path that runs through the instruction DEFINING the object again (the next round of a loop
+					// that takes a fresh object from the pool each time) uses that new object, not the released one
+					var def ssa.Instruction
+					if di, ok := obj.(ssa.Instruction); ok {
+						if _, isPhi := obj.(*ssa.Phi); !isPhi {
+							def = di
+						}
+					}
+					for _, later := range instrsReachableAfterAvoiding(b, idx, def) {
 						if later == ins {
 							continue
 						}
@@ -728,7 +736,7 @@ func runC12Cache(c *Ctx) {
 
 func runC12Unsafe(c *Ctx) {
 	p := c.P
-	c.Rule("C12-UNSAFE", "after a zero-copy bytes->string conversion nothing reachable writes/appends to or leaks the backing array; zero-copy string->bytes only reaches read-only consumers; unsafe used only in the two conversion helpers", 3)
+	c.Rule("C12-UNSAFE", "after a zero-copy bytes->string conversion nothing reachable writes/appends to or leaks the backing array; zero-copy string->bytes only reaches read-only consumers; unsafe used only in the two conversion helpers", 1)
 	b2s := p.Func("valid/internal", "UnsafeBytes2Str")
 	s2b := p.Func("valid/internal", "UnsafeStr2Bytes")
 	if b2s == nil || s2b == nil {
@@ -823,9 +831,10 @@ func runC12Unsafe(c *Ctx) {
 			}
 		}
 	}
-	if nSites < 3 {
-		c.Unk("C12-UNSAFE", "valid", "sites", token.NoPos, fmt.Sprintf("expected >= 3 zero-copy conversion sites, found %d", nSites))
-	}
+	// fewer conversion sites is harmless (a splitter that returns substrings of its input, an escaper built
+	// on strings.Replacer need none): no vacuity guard on the count — the who-may-call rule on package unsafe
+	// and the positive control keep the rule honest
+	_ = nSites
 }
 
 // sliceFamily: all values that may share the backing array of v within its function.
@@ -879,6 +888,41 @@ func sliceFamily(v ssa.Value) map[ssa.Value]bool {
 	}
 	add(v)
 	return fam
+}
+
+// instrsReachableAfterAvoiding: like instrsReachableAfter, but a path ends where it reaches `stop`.
+func instrsReachableAfterAvoiding(b *ssa.BasicBlock, idx int, stop ssa.Instruction) []ssa.Instruction {
+	if stop == nil {
+		return instrsReachableAfter(b, idx)
+	}
+	var out []ssa.Instruction
+	for _, x := range b.Instrs[idx+1:] {
+		if x == stop {
+			return out
+		}
+		out = append(out, x)
+	}
+	seen := map[*ssa.BasicBlock]bool{}
+	var walk func(x *ssa.BasicBlock)
+	walk = func(x *ssa.BasicBlock) {
+		if seen[x] {
+			return
+		}
+		seen[x] = true
+		for _, i := range x.Instrs {
+			if i == stop {
+				return
+			}
+			out = append(out, i)
+		}
+		for _, s := range x.Succs {
+			walk(s)
+		}
+	}
+	for _, s := range b.Succs {
+		walk(s)
+	}
+	return out
 }
 
 func instrsReachableAfter(b *ssa.BasicBlock, idx int) []ssa.Instruction {
